@@ -15,8 +15,9 @@ legend, configuration data.  The equality is evaluated here.
 
 Signature of a violation: `graphdiff/<cause>[+model]` / `recompile-error/<cause>[+model]`.  <cause> names the root
 cause from the place of the first difference (root|layer|scenario|step, what differs) and source features:
-  value-case        the difference is only the letter case of a value and the source holds an unquoted keyword-like
-                    string in odd case (printer lower-cases keyword-like VALUES; shared with C05),
+  value-case        a value became its own lower-casing and is a reserved keyword, the source holds an unquoted
+                    keyword-like value in odd case and no odd-case keyword KEY (the printer lower-casing VALUES — fixed
+                    in /repo by 065a7fd9a, so this cause is no longer a listed finding and is reported),
   board-order       the difference is in or below a scenario/step and the source declares something after a
                     scenarios/steps block in the same map (formatter moves boards last; design-level),
   board-order-glob  a declaration follows a board block and the source uses globs (lazy glob application),
@@ -57,15 +58,14 @@ def splitKV (s : String) : String × String :=
   | [] => (s, "")
   | k :: rest => (k, "=".intercalate rest)
 
-/-- the two attribute lists differ only in the letter case of values (the caller also requires that the source
-    holds an unquoted keyword-like value in odd case) -/
+/-- the two attribute lists differ only by values that were lower-cased into a reserved keyword -/
 def onlyValueCase : List String → List String → Bool
   | [], [] => true
   | a :: as, b :: bs =>
     (a == b ||
       (let (ka, va) := splitKV a
        let (kb, vb) := splitKV b
-       ka == kb && lowerS vb == lowerS va)) && onlyValueCase as bs
+       ka == kb && vb == lowerS va && isReserved vb.toList)) && onlyValueCase as bs
   | _, _ => false
 
 def firstListDiff (a b : List String) : String :=
@@ -88,7 +88,7 @@ def cmpObjs (whereK what : String) : List Json → List Json → Except String (
     let ix ← getStr x "id"
     let iy ← getStr y "id"
     if ix != iy then
-      let w := if lowerS iy == lowerS ix then "value-case" else what ++ "-id"
+      let w := if iy == lowerS ix && isReserved iy.toList then "value-case" else what ++ "-id"
       return some ⟨whereK, w, s!"object {ix.quote} vs {iy.quote}"⟩
     match cmpAttrs whereK (what ++ "-attr") s!"object {ix}" (← strList x "a") (← strList y "a") with
     | some d => return some d
@@ -197,7 +197,7 @@ def handleC04 (j : Json) : Except String Verdict := do
   let kwAny := hasFeat o "sf" "kwcase:value" || hasFeat o "sf" "kwcase:key-segment" || hasFeat o "sf" "kwcase:import"
   -- root cause named from the place of the first difference and the source features (see the header)
   let causeOf (whereK what : String) (under : Bool) : String :=
-    if what == "value-case" && kwAny then "value-case"
+    if what == "value-case" && kwAny && !hasFeat o "sf" "kwcase:key-segment" then "value-case"
     else if (whereK == "scenario" || whereK == "step" || under) && hasFeat o "sf" "boards:decl-after-scenarios-or-steps" then "board-order"
     else if (hasFeat o "sf" "boards:decl-after-layers" || hasFeat o "sf" "boards:decl-after-scenarios-or-steps")
         && hasFeat o "sf" "glob:any" then "board-order-glob"
@@ -212,7 +212,6 @@ def handleC04 (j : Json) : Except String Verdict := do
       if hasFeat o "sf" "boards:decl-after-scenarios-or-steps" then "board-order"
       else if hasFeat o "sf" "boards:quoted-key" then "quoted-board-key"
       else if hasFeat o "sf" "kwcase:key-segment" then "key-case"
-      else if kwAny then "value-case"
       else if hasFeat o "sf" "boards:empty-entry" then "empty-board-map"
       else if hasFeat o "sf" "text:backslash-crlf" then "backslash-crlf"
       else "unexplained"
